@@ -1,4 +1,5 @@
 import Nstd.Seq.PropsSortG
+import Nstd.Seq.LemmasSortT
 import Nstd.Generated.SeqSort
 /-
   Property C03, the tie by TRANSLATION for `List<T>::sort()`: `Nstd.Generated.SeqSort` holds `QuickSort::swap` and
@@ -17,79 +18,186 @@ open Nstd.Generated
 /-- the translated `QuickSort::swap(a, b)` (`T tmp = a->value; a->value = b->value; b->value = tmp;`) is `swapVal` -/
 theorem gen_sort_swap {α : Type} (p : PtrG.GHeap α) (a b : Nat) : SeqSort.swap p a b = some (PtrG.swapVal p a b) := rfl
 
-/-- The translated do-while loop of `QuickSort::sort` — `ptr2 = ptr2->next; if(ptr2->value < pivot) { ptr0 = ptr1;
-    ptr1 = ptr1->next; swap(ptr1, ptr2); }` while `ptr2 != right`, `pivot` re-read through the reference `left->value` — is
-    the model's partition loop `ploopG`: same heap, same `ptr0`, `ptr1` (and `ptr2 = right` at the exit), same faults (a null
-    `next`, fuel), for every heap, `left`, `right`, start pointers, fuel and comparison. -/
-theorem gen_sort_partition {α : Type} (lt : α → α → Bool) (left right : Nat) :
-    ∀ (fuel : Nat) (p : PtrG.GHeap α) (p0 p1 p2 : Nat),
-      SeqSort.sort_loop1 lt fuel p left right p0 p1 p2 =
-        (PtrG.ploopG lt left right fuel p p0 p1 p2).map (fun r => (r.heap, left, right, r.p0, r.p1, right)) := by
-  intro fuel
-  induction fuel with
-  | zero => intro p p0 p1 p2; rfl
-  | succ f ih =>
-    intro p p0 p1 p2
-    simp only [SeqSort.sort_loop1, PtrG.ploopG]
-    cases hn : p.next p2 with
-    | none => rfl
-    | some q2 =>
-      simp only []
-      by_cases hlt : lt (p.val q2) (p.val left) = true
-      · simp only [hlt, if_true]
-        cases hn1 : p.next p1 with
-        | none => rfl
-        | some q1 =>
-          simp only [gen_sort_swap]
-          by_cases hq : q2 = right
-          · subst hq; simp
-          · simp only [ne_eq, hq, not_false_eq_true, if_true, ih]
-      · simp only [hlt, Bool.false_eq_true, if_false]
-        by_cases hq : q2 = right
-        · subst hq; simp
-        · simp only [ne_eq, hq, not_false_eq_true, if_true, ih]
-
-/-- The translated `QuickSort::sort(left, right)` is the model's `qsortG` — for every heap, every `left`, `right`, every
-    comparison function, element type and fuel: together with `gsort_comparator` the code as written in the header sorts
-    (terminates within fuel `_size`, follows no null pointer, writes no link, leaves `sortVals lt` of the old values). -/
+/-- The translated `QuickSort::sort(left, right)` computes what the heap model's `qsortG` computes: for every heap, every
+    comparison function, element type and fuel, and every range `left ≠ right` (the precondition under which `sort()` and the
+    recursive calls invoke it), if the model returns `g` within fuel `f` the translated code returns `g` within fuel `f + 1`.
+    The statement does not depend on how the header spells the partition: the proof has one script for the do-while loop
+    inside `sort` with two recursive calls (there the translated code IS `ploopG` / `qsortG`, fault for fault, and more fuel
+    changes nothing: `qsortG_mono`), and one for a `partition(left, right, lastLess)` helper with a `for(i = left; i != right;)`
+    loop and the right recursion turned into `for(;;)` (the `for` form equals the do-while because `left ≠ right`; it tests the
+    condition once more, hence `f + 1`; `pivotItem->next` is read after the left recursion, which writes no link: `qsortG_next`). -/
 theorem gen_sort {α : Type} (lt : α → α → Bool) :
-    ∀ (fuel : Nat) (p : PtrG.GHeap α) (left right : Nat),
-      SeqSort.sort lt fuel p left right = PtrG.qsortG lt fuel p left right := by
-  intro fuel
-  induction fuel with
-  | zero => intro p left right; rfl
-  | succ f ih =>
-    intro p left right
-    simp only [SeqSort.sort, PtrG.qsortG, gen_sort_partition]
-    cases hpl : PtrG.ploopG lt left right (f + 1) p left left left with
-    | none => rfl
-    | some r =>
-      simp only [Option.map_some, gen_sort_swap, ih]
-      by_cases h1 : r.p1 = right
-      · by_cases h2 : left = r.p0
-        · simp [h1, h2]
-        · simp only [h1, h2, ne_eq, not_true_eq_false, not_false_eq_true, if_true, if_false]
-          cases PtrG.qsortG lt f (PtrG.swapVal r.heap left right) left r.p0 <;> rfl
-      · simp only [h1, ne_eq, not_false_eq_true, if_true]
-        cases hq : (PtrG.swapVal r.heap left r.p1).next r.p1 with
-        | none => rfl
-        | some q1 =>
-          simp only []
-          by_cases h2 : left = r.p0
-          · simp only [h2, ne_eq, not_true_eq_false, if_false]
-            by_cases h3 : q1 = right
-            · simp [h3]
-            · simp only [h3, ne_eq, not_false_eq_true, if_true]
-              cases PtrG.qsortG lt f (PtrG.swapVal r.heap r.p0 r.p1) q1 right <;> rfl
-          · simp only [h2, ne_eq, not_false_eq_true, if_true]
-            cases PtrG.qsortG lt f (PtrG.swapVal r.heap left r.p1) left r.p0 with
-            | none => rfl
-            | some h2' =>
-              simp only []
-              by_cases h3 : q1 = right
-              · simp [h3]
-              · simp only [h3, ne_eq, not_false_eq_true, if_true]
-                cases PtrG.qsortG lt f h2' q1 right <;> rfl
+    ∀ (f : Nat) (p : PtrG.GHeap α) (left right : Nat) (g : PtrG.GHeap α), left ≠ right →
+      PtrG.qsortG lt f p left right = some g → SeqSort.sort lt (f + 1) p left right = some g := by
+  first
+  | (have hloop : ∀ (left right fuel : Nat) (p : PtrG.GHeap α) (p0 p1 p2 : Nat),
+        SeqSort.sort_loop1 lt fuel p left right p0 p1 p2 =
+          (PtrG.ploopG lt left right fuel p p0 p1 p2).map (fun r => (r.heap, left, right, r.p0, r.p1, right)) := by
+       intro left right fuel
+       induction fuel with
+       | zero => intro p p0 p1 p2; rfl
+       | succ f ih =>
+         intro p p0 p1 p2
+         simp only [SeqSort.sort_loop1, PtrG.ploopG]
+         cases hn : p.next p2 with
+         | none => rfl
+         | some q2 =>
+           simp only []
+           by_cases hlt : lt (p.val q2) (p.val left) = true
+           · simp only [hlt, if_true]
+             cases hn1 : p.next p1 with
+             | none => rfl
+             | some q1 =>
+               simp only [gen_sort_swap]
+               by_cases hq : q2 = right
+               · subst hq; simp
+               · simp only [ne_eq, hq, not_false_eq_true, if_true, ih]
+           · simp only [hlt, Bool.false_eq_true, if_false]
+             by_cases hq : q2 = right
+             · subst hq; simp
+             · simp only [ne_eq, hq, not_false_eq_true, if_true, ih]
+     have hexact : ∀ (fuel : Nat) (p : PtrG.GHeap α) (left right : Nat),
+        SeqSort.sort lt fuel p left right = PtrG.qsortG lt fuel p left right := by
+       intro fuel
+       induction fuel with
+       | zero => intro p left right; rfl
+       | succ f ih =>
+         intro p left right
+         simp only [SeqSort.sort, PtrG.qsortG, hloop]
+         cases hpl : PtrG.ploopG lt left right (f + 1) p left left left with
+         | none => rfl
+         | some r =>
+           simp only [Option.map_some, gen_sort_swap, ih]
+           by_cases h1 : r.p1 = right
+           · by_cases h2 : left = r.p0
+             · simp [h1, h2]
+             · simp only [h1, h2, ne_eq, not_true_eq_false, not_false_eq_true, if_true, if_false]
+               cases PtrG.qsortG lt f (PtrG.swapVal r.heap left right) left r.p0 <;> rfl
+           · simp only [h1, ne_eq, not_false_eq_true, if_true]
+             cases hq : (PtrG.swapVal r.heap left r.p1).next r.p1 with
+             | none => rfl
+             | some q1 =>
+               simp only []
+               by_cases h2 : left = r.p0
+               · simp only [h2, ne_eq, not_true_eq_false, if_false]
+                 by_cases h3 : q1 = right
+                 · simp [h3]
+                 · simp only [h3, ne_eq, not_false_eq_true, if_true]
+                   cases PtrG.qsortG lt f (PtrG.swapVal r.heap r.p0 r.p1) q1 right <;> rfl
+               · simp only [h2, ne_eq, not_false_eq_true, if_true]
+                 cases PtrG.qsortG lt f (PtrG.swapVal r.heap left r.p1) left r.p0 with
+                 | none => rfl
+                 | some h2' =>
+                   simp only []
+                   by_cases h3 : q1 = right
+                   · simp [h3]
+                   · simp only [h3, ne_eq, not_false_eq_true, if_true]
+                     cases PtrG.qsortG lt f h2' q1 right <;> rfl
+     intro f p left right g _ h
+     rw [hexact]
+     exact PtrG.qsortG_mono lt f p left right g h)
+  | (have hloop : ∀ (l r f : Nat) (p : PtrG.GHeap α) (p0 p1 p2 : Nat) (R : PtrG.PL α), p2 ≠ r →
+        PtrG.ploopG lt l r f p p0 p1 p2 = some R →
+        SeqSort.partition_loop1 lt (f + 1) p l r p0 p1 p2 = some (R.heap, l, r, R.p0, R.p1, r) := by
+       intro l r f
+       induction f with
+       | zero => intro p p0 p1 p2 R _ h; simp [PtrG.ploopG] at h
+       | succ f ih =>
+         intro p p0 p1 p2 R hne h
+         rw [PtrG.ploopG] at h
+         rw [SeqSort.partition_loop1]
+         simp only [ne_eq, hne, not_false_eq_true, if_true]
+         cases hn : p.next p2 with
+         | none => simp [hn] at h
+         | some q2 =>
+           simp only [hn] at h ⊢
+           by_cases hlt : lt (p.val q2) (p.val l) = true
+           · simp only [hlt, if_true] at h ⊢
+             cases hn1 : p.next p1 with
+             | none => simp [hn1] at h
+             | some q1 =>
+               simp only [hn1, gen_sort_swap] at h ⊢
+               by_cases hq : q2 = r
+               · simp only [hq, ne_eq, not_true_eq_false, if_false, Option.some.injEq] at h
+                 subst h
+                 rw [SeqSort.partition_loop1]
+                 simp [hq]
+               · simp only [ne_eq, hq, not_false_eq_true, if_true] at h
+                 exact ih _ _ _ _ _ hq h
+           · simp only [hlt, Bool.false_eq_true, if_false] at h ⊢
+             by_cases hq : q2 = r
+             · simp only [hq, ne_eq, not_true_eq_false, if_false, Option.some.injEq] at h
+               subst h
+               rw [SeqSort.partition_loop1]
+               simp [hq]
+             · simp only [ne_eq, hq, not_false_eq_true, if_true] at h
+               exact ih _ _ _ _ _ hq h
+     have hpart : ∀ (l r f : Nat) (p : PtrG.GHeap α) (R : PtrG.PL α), l ≠ r → PtrG.ploopG lt l r f p l l l = some R →
+        SeqSort.partition lt (f + 1) p l r = some (PtrG.swapVal R.heap l R.p1, R.p1, R.p0) := by
+       intro l r f p R hlr h
+       unfold SeqSort.partition
+       simp only [hloop l r f p l l l R hlr h, gen_sort_swap]
+     intro f
+     induction f with
+     | zero => intro p l r g _ h; simp [PtrG.qsortG] at h
+     | succ f ih =>
+       intro p l r g hlr h
+       rw [PtrG.qsortG] at h
+       cases hpl : PtrG.ploopG lt l r (f + 1) p l l l with
+       | none => simp [hpl] at h
+       | some R =>
+         simp only [hpl] at h
+         rw [SeqSort.sort]
+         simp only [hpart l r (f + 1) p R hlr hpl]
+         cases hq : (if R.p1 ≠ r then (PtrG.swapVal R.heap l R.p1).next R.p1 else some R.p1) with
+         | none => simp [hq] at h
+         | some q1 =>
+           simp only [hq] at h
+           cases hl : (if l ≠ R.p0 then PtrG.qsortG lt f (PtrG.swapVal R.heap l R.p1) l R.p0 else some (PtrG.swapVal R.heap l R.p1)) with
+           | none => simp [hl] at h
+           | some h2 =>
+             simp only [hl] at h
+             have h2n : h2.next = (PtrG.swapVal R.heap l R.p1).next := by
+               by_cases c : l = R.p0
+               · simp only [c, ne_eq, not_true_eq_false, if_false, Option.some.injEq] at hl
+                 rw [← hl]; rfl
+               · simp only [c, ne_eq, not_false_eq_true, if_true] at hl
+                 exact PtrG.qsortG_next lt _ _ _ _ _ hl
+             have hleft : (if l ≠ R.p0 then SeqSort.sort lt (f + 1) (PtrG.swapVal R.heap l R.p1) l R.p0
+                           else some (PtrG.swapVal R.heap l R.p1)) = some h2 := by
+               by_cases c : l = R.p0
+               · rw [if_neg (fun hh => hh c)] at hl ⊢; exact hl
+               · simp only [c, ne_eq, not_false_eq_true, if_true] at hl ⊢
+                 exact ih _ _ _ _ c hl
+             by_cases c : l = R.p0
+             · simp only [c, ne_eq, not_true_eq_false, if_false, Option.some.injEq] at hleft
+               simp only [c, ne_eq, not_true_eq_false, if_false]
+               rw [c] at h2n hq
+               rw [hleft]
+               by_cases c1 : R.p1 = r
+               · simp only [c1, ne_eq, not_true_eq_false, if_false, Option.some.injEq] at hq
+                 subst hq
+                 simp only [c1, if_true]
+                 simpa using h
+               · simp only [c1, ne_eq, not_false_eq_true, if_true] at hq
+                 simp only [c1, if_false, h2n, hq]
+                 by_cases c2 : q1 = r
+                 · simpa [c2] using h
+                 · simp only [c2, ne_eq, not_false_eq_true, if_true, if_false] at h ⊢
+                   exact ih _ _ _ _ c2 h
+             · simp only [c, ne_eq, not_false_eq_true, if_true] at hleft ⊢
+               simp only [hleft]
+               by_cases c1 : R.p1 = r
+               · simp only [c1, ne_eq, not_true_eq_false, if_false, Option.some.injEq] at hq
+                 subst hq
+                 simp only [c1, if_true]
+                 simpa using h
+               · simp only [c1, ne_eq, not_false_eq_true, if_true] at hq
+                 simp only [c1, if_false, h2n, hq]
+                 by_cases c2 : q1 = r
+                 · simpa [c2] using h
+                 · simp only [c2, ne_eq, not_false_eq_true, if_true, if_false] at h ⊢
+                   exact ih _ _ _ _ c2 h)
 
 /-- `List<T>::sort()` with the TRANSLATED quicksort in place of the model's (the public wrapper — return for 0 or 1 element,
     else `QuickSort::sort(_begin.item, endItem.prev)` — is shape-checked by the translator): for every element type, every
@@ -101,19 +209,24 @@ theorem gen_sort_comparator {α : Type} [Inhabited α] (lt : α → α → Bool)
     ∃ g' m',
       (match Ptr.lastOr xs none with
        | none => some g
-       | some l => if xs.headD 0 = l then some g else SeqSort.sort lt xs.length g (xs.headD 0) l) = some g' ∧
+       | some l => if xs.headD 0 = l then some g else SeqSort.sort lt (xs.length + 1) g (xs.headD 0) l) = some g' ∧
       sortVals lt m = some m' ∧ m'.Perm m ∧ g'.next = g.next ∧ PtrG.View g' xs m' ∧ ∀ a, a ∉ xs → g'.val a = g.val a := by
   obtain ⟨g', m', e1, rest⟩ := gsort_comparator lt g xs m hv
   refine ⟨g', m', ?_, rest⟩
-  rw [← e1]
-  unfold PtrG.sortG
-  cases Ptr.lastOr xs none with
-  | none => rfl
-  | some l => simp only [gen_sort]
+  unfold PtrG.sortG at e1
+  cases hl : Ptr.lastOr xs none with
+  | none => rw [hl] at e1; exact e1
+  | some l =>
+    rw [hl] at e1
+    simp only [] at e1 ⊢
+    by_cases c : xs.headD 0 = l
+    · rw [if_pos c] at e1 ⊢; exact e1
+    · rw [if_neg c] at e1 ⊢
+      exact gen_sort lt _ _ _ _ _ c e1
 
 /-- non-vacuity: the translated quicksort run on the (key, tag) heap of PropsSortG.lean -/
 example :
-    (SeqSort.sort (fun a b : Nat × Nat => decide (a.1 < b.1)) 3 demoG 1 3).map (fun g => (g.val 1, g.val 2, g.val 3, g.val 4)) =
+    (SeqSort.sort (fun a b : Nat × Nat => decide (a.1 < b.1)) 4 demoG 1 3).map (fun g => (g.val 1, g.val 2, g.val 3, g.val 4)) =
       some ((0, 2), (0, 1), (1, 0), (9, 9)) := by decide
 
 end Nstd.Seq
